@@ -267,6 +267,11 @@ def synthetic_reaction(rng, canonical: bool = False, malformed: bool = False, ma
 
     n_fs = rng.choice([3, 3, 3, 4])
     topo = rng.choice(create_isobar_topologies(n_fs))
+    if rng.random() < 0.5:  # both child orderings: the resonance may carry the smaller or the larger ids
+        ids = sorted(topo.outgoing_edge_ids)
+        perm = ids[:]
+        rng.shuffle(perm)
+        topo = topo.relabel_edges(dict(zip(ids, perm)))
     finals = sorted(topo.outgoing_edge_ids)
     inters = sorted(topo.intermediate_edge_ids)
     (initial,) = topo.incoming_edge_ids
@@ -382,3 +387,149 @@ def synthetic_reaction(rng, canonical: bool = False, malformed: bool = False, ma
         "formalism": reaction.formalism,
     }
     return reaction, desc
+
+
+# ----------------------------------------------------------------------------- rare but legitimate shapes (deterministic)
+
+
+def build_reaction(topo, spec: dict, canonical: bool, max_chains: int = 48, eta_none=(), initial_helicities=None):
+    """A reaction on `topo` with particles `spec[edge] = (name, latex, spin2, parity)`: ALL valid helicity chains (both
+    signs of every helicity), thinned evenly to `max_chains`; in the canonical formalism every parity-allowed LS
+    combination (at most 3 per node, lowest L first, so explicit L = 0 occurs)."""
+    from qrules.particle import Parity, Particle
+    from qrules.quantum_numbers import InteractionProperties
+    from qrules.topology import FrozenTransition
+    from qrules.transition import ReactionInfo, State
+
+    edges = sorted(topo.edges)
+    (initial,) = topo.incoming_edge_ids
+    particles = {}
+    for i, e in enumerate(edges):
+        name, latex, spin2, parity = spec[e]
+        if name in {p.name for p in particles.values()}:
+            particles[e] = next(p for p in particles.values() if p.name == name)
+            continue
+        particles[e] = Particle(name=name, pid=500 + i, latex=latex, spin=Fraction(spin2, 2), mass=1.0 + 0.13 * i,
+                                width=0.1, parity=Parity(parity))
+    spin2 = {e: spec[e][2] for e in edges}
+    node_info = {}
+    for n in topo.nodes:
+        (pin,) = topo.get_edge_ids_ingoing_to_node(n)
+        c1, c2 = sorted(topo.get_edge_ids_outgoing_from_node(n))
+        pp = spec[pin][3] * spec[c1][3] * spec[c2][3]
+        expo = (spin2[pin] - spin2[c1] - spin2[c2]) // 2
+        conserving = n not in eta_none
+        ls_opts = []
+        for s2 in range(abs(spin2[c1] - spin2[c2]), spin2[c1] + spin2[c2] + 1, 2):
+            for l2 in range(abs(spin2[pin] - s2), spin2[pin] + s2 + 1, 2):
+                if l2 % 2 or (conserving and (-1) ** ((l2 // 2) % 2) != pp):
+                    continue
+                ls_opts.append((l2 // 2, Fraction(s2, 2)))
+        ls_opts.sort()
+        node_info[n] = {"pin": pin, "c": (c1, c2), "eta": float(pp * (-1) ** (expo % 2)) if conserving else None,
+                        "ls": ls_opts[:3] or [(None, None)]}
+    ranges = []
+    for e in edges:
+        r = list(range(-spin2[e], spin2[e] + 1, 2))
+        if e == initial and initial_helicities is not None:
+            r = [h for h in r if h in initial_helicities]
+        ranges.append(r)
+    chains = []
+    for combo in itertools.product(*ranges):
+        h = dict(zip(edges, combo))
+        if all(abs(h[i["c"][0]] - h[i["c"][1]]) <= spin2[i["pin"]] for i in node_info.values()):
+            chains.append(h)
+    if len(chains) > max_chains:
+        step = len(chains) / max_chains
+        chains = [chains[int(k * step)] for k in range(max_chains)]
+    transitions = []
+    for h in chains:
+        states = {e: State(particles[e], h[e] / 2) for e in edges}
+        ls_products = list(itertools.product(*[node_info[n]["ls"] for n in sorted(node_info)])) if canonical \
+            else [tuple((None, None) for _ in node_info)]
+        for lsp in ls_products:
+            inter = {n: InteractionProperties(l_magnitude=l, s_magnitude=s_, parity_prefactor=node_info[n]["eta"])
+                     for n, (l, s_) in zip(sorted(node_info), lsp)}
+            transitions.append(FrozenTransition(topo, states, inter))
+    return ReactionInfo(transitions, formalism="canonical-helicity" if canonical else "helicity")
+
+
+def shaped_reactions(big: bool = False) -> dict:
+    """Deterministic reactions with the rare shapes of HARDENING rule 5."""
+    from qrules.topology import create_isobar_topologies
+
+    t3 = create_isobar_topologies(3)[0]           # -1 -> (3 -> 1 2) 0
+    t3r = t3.relabel_edges({0: 2, 2: 0})          # resonance ids (0 1), spectator 2: other child ordering
+    t4 = create_isobar_topologies(4)[1]           # -1 -> (4 -> 0 1) (5 -> 2 3): two resonances at the top node
+    out = {}
+    # explicit L = 0 at a node whose parent has non-zero integer spin (canonical), spin-1 resonance
+    out["shape_L0_spin1.can"] = build_reaction(
+        t3, {-1: ("X1", "X_{1}", 2, -1), 3: ("R1", None, 2, 1), 0: ("a0", "a^{0}", 0, -1), 1: ("b1", "b_{1}", 2, -1),
+             2: ("c0", None, 0, -1)}, canonical=True, max_chains=12 if big else 5)
+    # spin 3/2 and spin 2 states, both child orderings (relabelled topology), helicity formalism
+    out["shape_spin32_spin2.hel"] = build_reaction(
+        t3r, {-1: ("Y2", "Y_{2}", 4, 1), 3: ("D32", "\\Delta^{3/2}", 3, 1), 2: ("n12", None, 1, 1), 0: ("p12", "p", 1, 1),
+              1: ("v1", "v_{1}", 2, -1)}, canonical=False, max_chains=40 if big else 14, initial_helicities=(4, 0, -2))
+    out["shape_spin32_spin2.can"] = build_reaction(
+        t3, {-1: ("Y2", "Y_{2}", 4, 1), 3: ("D32", "\\Delta^{3/2}", 3, 1), 0: ("n12", None, 1, 1), 1: ("p12", "p", 1, 1),
+             2: ("v1", "v_{1}", 2, -1)}, canonical=True, max_chains=8 if big else 3, initial_helicities=(4, -2))
+    # 4 final states, two resonances at the top node, identical spin-1/2 particles in DIFFERENT branches with all
+    # (hence also unequal) helicities; eta = -1 at node 1, +1 elsewhere or vice versa
+    out["shape_two_resonances_identical.hel"] = build_reaction(
+        t4, {-1: ("Z1", None, 2, -1), 4: ("Ra", "R_{a}", 1, 1), 5: ("Rb", None, 1, -1), 0: ("f12", "f", 1, 1),
+             1: ("s0", "s^{0}", 0, -1), 2: ("f12", "f", 1, 1), 3: ("t0", None, 0, 1)}, canonical=False, max_chains=32 if big else 12,
+        initial_helicities=(2, 0))
+    return out
+
+
+# ----------------------------------------------------------------------------- hash seeds (fresh processes)
+
+
+def hashseed_runs(reaction_files, seeds, timeout: int = 240):
+    """Run tools/corr/C03_hashseed.py concurrently under the given PYTHONHASHSEED values."""
+    import json
+    import os
+    import subprocess
+
+    procs = []
+    for hs in seeds:
+        env = dict(os.environ)
+        env["PYTHONHASHSEED"] = str(hs)
+        procs.append(subprocess.Popen([common.PY, str(common.ROOT / "tools" / "corr" / "C03_hashseed.py"),
+                                       *map(str, reaction_files)], env=env, stdout=subprocess.PIPE,
+                                      stderr=subprocess.PIPE, text=True, cwd=str(common.ROOT)))
+    results = []
+    for hs, p in zip(seeds, procs):
+        try:
+            out, err = p.communicate(timeout=timeout)
+        except subprocess.TimeoutExpired as e:
+            p.kill()
+            raise common.InfraError(f"hash-seed subprocess timed out after {timeout}s") from e
+        line = [l for l in out.splitlines() if l.startswith("{")]
+        if p.returncode != 0 or not line:
+            results.append({"hashseed": str(hs), "error": (err or out)[-600:]})
+        else:
+            results.append(json.loads(line[-1]))
+    return results
+
+
+def compare_hashseed_runs(chk, results, fields, what: str):
+    """All runs must agree on `fields`; evidence records how many distinct string-set orders were observed."""
+    orders = {r.get("string_set_iteration_order") for r in results if "error" not in r}
+    chk.info(f"{what}_hash_seeds", [r.get("hashseed") for r in results])
+    chk.info(f"{what}_distinct_string_set_iteration_orders_observed", len(orders))
+    bad = []
+    for r in results:
+        if "error" in r:
+            bad.append({"hashseed": r["hashseed"], "error": r["error"]})
+    ok = [r for r in results if "error" not in r]
+    if ok:
+        ref = ok[0]
+        for r in ok[1:]:
+            for name, d in r["reactions"].items():
+                for f in fields:
+                    if d.get(f) != ref["reactions"].get(name, {}).get(f):
+                        bad.append({"reaction": name, "field": f, "hashseed_a": ref["hashseed"], "hashseed_b": r["hashseed"]})
+    for r in ok:
+        chk.count(("hashseed", what, r["hashseed"]))
+    return bad
